@@ -188,8 +188,19 @@ Fixpoint split_data (fuel : nat) (maxf : N) (s : N) (es : bool) (d : bytes) : op
 Definition fcl (d : bytes) (pad : option N) : N :=
   (N.of_nat (length d) + match pad with Some p => p + 1 | None => 0 end)%N.
 
+(* last occurrence of an identifier in a SETTINGS frame (an ordered list) *)
+Fixpoint last_occ (id : N) (kv : list (N * N)) : option N :=
+  match kv with
+  | [] => None
+  | p :: t => match last_occ id t with
+              | Some v => Some v
+              | None => if N.eqb (fst p) id then Some (snd p) else None
+              end
+  end.
+(* repaired (fixes/C09-2): the INITIAL_WINDOW_SIZE of a SETTINGS frame is applied once, with the
+   last value, after the whole frame has been read *)
 Definition settings_actions (y : side) (kv : list (N * N)) : list action :=
-  flat_map (fun p => if N.eqb (fst p) 4 then [ASetInit y (snd p)] else []) kv.
+  match last_occ 4 kv with Some v => [ASetInit y v] | None => [] end.
 Definition settings_maxf (cur : N) (kv : list (N * N)) : N :=
   fold_left (fun m p => if N.eqb (fst p) 5 then snd p else m) kv cur.
 Definition settings_tab (cur : N) (kv : list (N * N)) : N :=
